@@ -781,7 +781,25 @@ def s9(tier):
     return out
 
 
-STRATA = {'S3s': s3_strided, 'S1n': s1_numeric, 'S9': s9, 'S1p': s1_pairs, 'S1xa': s1_exclude_a11, 'S2s': s2_small, 'S1L': s1_latin3, 'S1': s1, 'S1x': s1_exclude, 'S2': s2, 'S3': s3, 'S4': s4, 'S5': s5, 'S6': s6}
+def s6_outer_derived(tier):
+    """A15 shapes (a Nest whose OUTER block has a Transition factor in its crossing, alone or together with a Transition factor in the
+    inner crossing): which sequences are valid is not determined by the documentation, so these designs are used only where no
+    sequence-level oracle is needed - C14 (variable allocation and decoding are internal consistency)"""
+    out = []
+    O = basic('O', 2)
+    A = basic('A', 2)
+    C = basic('C', 3)
+    fm0 = {'O': O, 'A': A}
+    TO = window('TO', ['O'], fm0, 2, same, kind='transition', start=1)
+    TA = window('TA', ['A'], fm0, 2, same, kind='transition', start=1)
+    for al in ('post preamble', 'parallel start'):
+        for fi, bi in (([C], cross(['C'], ['C'])), ([A, TA], cross(['A', 'TA'], ['TA'])), ([A, TA], cross(['A', 'TA'], ['A', 'TA']))):
+            for bo in (cross(['O', 'TO'], ['TO']), cross(['O', 'TO'], ['O', 'TO'])):
+                out.append(spec([O, TO] + fi, {'op': 'nest', 'outer': bo, 'inner': bi, 'constraints': [], 'alignment': al}, 'S6a'))
+    return out
+
+
+STRATA = {'S6a': s6_outer_derived, 'S3s': s3_strided, 'S1n': s1_numeric, 'S9': s9, 'S1p': s1_pairs, 'S1xa': s1_exclude_a11, 'S2s': s2_small, 'S1L': s1_latin3, 'S1': s1, 'S1x': s1_exclude, 'S2': s2, 'S3': s3, 'S4': s4, 'S5': s5, 'S6': s6}
 
 
 def shape_key(d):
